@@ -1,4 +1,5 @@
 (* C09 - Only the five BIP39 sizes are accepted; other sizes give the sentinel errors. *)
+From B39 Require Import Proofs.Calls.
 From B39 Require Import Lib.Base Lib.Sha256 Lib.TableWF Model.GenTypes Model.Model Spec.Bip39Spec.
 From Coq Require Import ZifyBool ZifyNat ZifyN.
 From B39 Require Import Proofs.Gates Proofs.Tables Proofs.Encode Proofs.Roundtrip Proofs.Reader.
@@ -53,6 +54,11 @@ Proof. intros n. split; [apply gate_entropy_spec|apply gate_words_spec]. Qed.
 
 Example C09_nonvacuous : valid_ent 16 /\ ~ valid_ent 36 /\ valid_wc_z 24 /\ ~ valid_wc_z 27.
 Proof. unfold valid_ent, valid_wc_z. cbn [In]. lia. Qed.
+
+(* the functions this property is about, and every package function they reach, call only what the model
+   accounts for (closed world of callees, computed on coq/Gen/Calls.v, regenerated from the source every run) *)
+Theorem C09_callees : reach_ok "NewMnemonicByEntropy" = true /\ reach_ok "NewMnemonic" = true /\ reach_ok "fromEntropy" = true.
+Proof. exact calls_generator. Qed.
 
 Print Assumptions C09_entropy_accept.
 Print Assumptions C09_entropy_reject.
